@@ -517,9 +517,12 @@ class CodeGenMapper(Mapper[ImplementedResult, Never, [CodeGenState]]):
 
         loopy_shape = shape_to_scalar_expression(expr.shape, self, state)
 
+        # 'reductions' is a frozenset: sort by variable name so that the order
+        # in which bound temporaries are emitted does not depend on hash order
         redn_bounds = {
             var_name: redn.bounds[var_name]
-            for var_name, redn in var_to_reduction.items()}
+            for var_name, redn in sorted(var_to_reduction.items(),
+                                         key=lambda item: item[0])}
 
         loopy_redn_bounds: Mapping[str, tuple[Expression, Expression]] = {
             var_name: cast(
